@@ -28,6 +28,7 @@ fn main() {
     let baseline = mode == "baseline" || mode == "pipeline-baseline";
     let pipeline = mode.starts_with("pipeline");
     let mut bad = 0;
+    let mut harness = 0;
     for i in first..first + n {
         let mut r = Rng::new(run_seed(seed, i));
         let sc = if pipeline {
@@ -48,11 +49,16 @@ fn main() {
             if !pipeline {
                 println!("program {} ({}) ok", i, sc.kind());
             }
+        } else if f.iter().any(|x| x.check == "harness") {
+            // the harness itself tripped (an actor panicked, a gate starved): never a finding
+            // about sea-query
+            harness += 1;
+            println!("program {} ({}) HARNESS-TROUBLE {:?}", i, sc.kind(), f);
         } else {
             bad += 1;
             println!("program {} ({}) FINDINGS {:?}", i, sc.kind(), f);
             println!("SCENARIO {}", serde_json::to_string(&sc).unwrap());
         }
     }
-    std::process::exit(if bad > 0 { 1 } else { 0 });
+    std::process::exit(if bad > 0 { 1 } else if harness > 0 { 3 } else { 0 });
 }
